@@ -1,182 +1,1594 @@
+//! Driver for the simulation loop / clocks / crash+bounce (specs/simrun): C05, C11, C04.
+//!
+//! Modes
+//!   replay in=<behaviours.ndjson> out=<summary.json> traces=<dir> tick= duration= epoch=
+//!       every line is one TLC-generated behaviour of SimRunGen: the calls of the
+//!       test thread (register / step / run / crash / bounce) are executed against
+//!       the real `turmoil::Sim`, everything the programs and the test thread
+//!       observe is recorded and compared with what TLC predicted.  Divergent
+//!       behaviours get their recorded trace written to <traces>/div-<k>.ndjson
+//!       so that the PropSpec can judge them.
+//!   random seed= runs= tick= duration= epoch= out=<trace.ndjson>
+//!       seeded random scenarios (random scripts, random host order, crash /
+//!       bounce / late registration); one concatenated trace, `reset` between runs.
+//!   crash ...   C04 workloads with fault schedules, see the second half of the file.
+use rand::rngs::SmallRng;
+use rand::{Rng, SeedableRng};
+use serde_json::{json, Value};
 use std::cell::RefCell;
-use std::rc::Rc;
-use std::time::Duration;
-use tokio::io::{AsyncReadExt, AsyncWriteExt};
-use vh::util;
+use std::collections::BTreeMap;
+use std::time::{Duration, UNIX_EPOCH};
+use vh::{rec, util};
 
 fn ms(k: u64) -> Duration {
     Duration::from_millis(k)
 }
 
-fn probe() {
-    // 1. boundary
-    {
-        let mut sim = turmoil::Builder::new().tick_duration(ms(2)).simulation_duration(ms(100)).build();
-        let log = Rc::new(RefCell::new(Vec::<String>::new()));
-        let l = log.clone();
-        sim.client("c", async move {
-            l.borrow_mut().push(format!("start {:?}", turmoil::elapsed()));
-            tokio::time::sleep(ms(4)).await;
-            l.borrow_mut().push(format!("fin {:?}", turmoil::elapsed()));
+/// whole milliseconds, or -1
+fn whole_ms(d: Duration) -> i64 {
+    if d.subsec_nanos() % 1_000_000 == 0 {
+        d.as_millis() as i64
+    } else {
+        -1
+    }
+}
+
+thread_local! {
+    /// activity counters, index = node id (slot 0 unused)
+    static POLLS: RefCell<Vec<u64>> = const { RefCell::new(Vec::new()) };
+}
+
+fn polls() -> Vec<u64> {
+    POLLS.with(|p| p.borrow().iter().skip(1).copied().collect())
+}
+
+#[derive(Clone, Debug)]
+struct Script {
+    kind: String,
+    pat: Vec<u64>,
+    out: String,
+    tpat: Vec<u64>,
+    tout: String,
+}
+
+impl Script {
+    fn from_json(v: &Value) -> Script {
+        let arr = |x: &Value| -> Vec<u64> {
+            x.as_array()
+                .map(|a| a.iter().map(|y| y.as_u64().unwrap()).collect())
+                .unwrap_or_default()
+        };
+        Script {
+            kind: v["kind"].as_str().unwrap().to_string(),
+            pat: arr(&v["pat"]),
+            out: v["out"].as_str().unwrap().to_string(),
+            tpat: arr(&v["tpat"]),
+            tout: v["tout"].as_str().unwrap().to_string(),
+        }
+    }
+}
+
+/// One whole-millisecond wait through one of tokio's timer primitives.
+async fn wait_ms(k: u64, prim: u64) {
+    if k == 0 {
+        tokio::time::sleep(Duration::ZERO).await;
+        return;
+    }
+    match prim % 4 {
+        0 => tokio::time::sleep(ms(k)).await,
+        1 => {
+            let _ = tokio::time::timeout(ms(k), std::future::pending::<()>()).await;
+        }
+        2 => {
+            let mut iv = tokio::time::interval(ms(k));
+            iv.tick().await; // completes immediately
+            iv.tick().await;
+        }
+        _ => tokio::time::sleep_until(tokio::time::Instant::now() + ms(k)).await,
+    }
+}
+
+async fn run_pat(h: usize, task: &'static str, pat: Vec<u64>) {
+    for (i, k) in pat.into_iter().enumerate() {
+        let st = whole_ms(turmoil::elapsed());
+        let i0 = tokio::time::Instant::now();
+        wait_ms(k, (h + i) as u64).await;
+        let el = turmoil::elapsed();
+        let sim = turmoil::sim_elapsed().expect("sim_elapsed");
+        let ep = turmoil::since_epoch().expect("since_epoch");
+        let di = tokio::time::Instant::now() - i0;
+        rec::emit(json!({"ev":"sample","h":h,"task":task,"k":k,"st":st,"el":whole_ms(el),
+            "sim":whole_ms(sim),"ep":whole_ms(ep),"di":whole_ms(di)}));
+    }
+}
+
+async fn heartbeat(h: usize) {
+    loop {
+        POLLS.with(|p| p.borrow_mut()[h] += 1);
+        rec::emit(json!({"ev":"hb","h":h}));
+        tokio::time::sleep(ms(1)).await;
+    }
+}
+
+async fn spawned(h: usize, tpat: Vec<u64>, tout: String) -> Result<(), String> {
+    run_pat(h, "t", tpat).await;
+    match tout.as_str() {
+        "Panic" => {
+            rec::emit(json!({"ev":"panic","h":h,"task":"t"}));
+            panic!("scripted panic in a spawned task");
+        }
+        "Err" => return Err("scripted error in a spawned task".to_string()),
+        "Never" => std::future::pending::<()>().await,
+        _ => {}
+    }
+    Ok(())
+}
+
+async fn software(h: usize, sc: Script) -> turmoil::Result {
+    tokio::task::spawn_local(heartbeat(h));
+    if sc.tout != "none" {
+        // alternate between the LocalSet and the runtime's own task queue
+        if h % 2 == 0 {
+            tokio::spawn(spawned(h, sc.tpat.clone(), sc.tout.clone()));
+        } else {
+            tokio::task::spawn_local(spawned(h, sc.tpat.clone(), sc.tout.clone()));
+        }
+    }
+    run_pat(h, "m", sc.pat.clone()).await;
+    let at = whole_ms(turmoil::sim_elapsed().expect("sim_elapsed"));
+    match sc.out.as_str() {
+        "Ok" => {
+            rec::emit(json!({"ev":"fin","h":h,"out":"Ok","at":at}));
             Ok(())
-        });
-        let l = log.clone();
-        sim.host("h", move || {
-            let l = l.clone();
-            async move {
-                let mut n = 0;
-                loop {
-                    l.borrow_mut().push(format!("hb {} {:?}", n, turmoil::elapsed()));
-                    n += 1;
-                    tokio::time::sleep(ms(1)).await;
-                }
-            }
-        });
-        for i in 0..4 {
-            let r = sim.step();
-            println!("step {} -> {:?} elapsed {:?} log {:?}", i + 1, r.map_err(|e| e.to_string()), sim.elapsed(), log.borrow_mut().drain(..).collect::<Vec<_>>());
         }
-    }
-    // 2. panics
-    for mode in 0..3 {
-        let r = util::catch(|| {
-            let mut sim = turmoil::Builder::new().tick_duration(ms(2)).build();
-            sim.client("c", async move {
-                match mode {
-                    0 => panic!("main panic"),
-                    1 => {
-                        tokio::task::spawn_local(async { panic!("local panic") });
-                    }
-                    _ => {
-                        tokio::spawn(async { panic!("rt panic") });
-                    }
-                }
-                tokio::time::sleep(ms(10)).await;
-                Ok(())
-            });
-            sim.run().map_err(|e| e.to_string())
-        });
-        println!("panic mode {mode}: {:?}", r);
-    }
-    // 3. Err + later nodes unticked
-    {
-        let mut sim = turmoil::Builder::new().tick_duration(ms(2)).build();
-        let log = Rc::new(RefCell::new(Vec::<String>::new()));
-        let l = log.clone();
-        sim.host("a", move || {
-            let l = l.clone();
-            async move {
-                loop {
-                    l.borrow_mut().push(format!("a {:?} {:?}", turmoil::elapsed(), turmoil::sim_elapsed()));
-                    tokio::time::sleep(ms(2)).await;
-                }
-            }
-        });
-        sim.client("c", async move {
-            tokio::time::sleep(ms(2)).await;
-            Err("boom")?
-        });
-        let l = log.clone();
-        sim.host("b", move || {
-            let l = l.clone();
-            async move {
-                loop {
-                    l.borrow_mut().push(format!("b {:?} {:?}", turmoil::elapsed(), turmoil::sim_elapsed()));
-                    tokio::time::sleep(ms(2)).await;
-                }
-            }
-        });
-        for i in 0..4 {
-            let r = sim.step();
-            println!("errstep {} -> {:?} elapsed {:?} log {:?}", i + 1, r.map_err(|e| e.to_string()), sim.elapsed(), log.borrow_mut().drain(..).collect::<Vec<_>>());
+        "Err" => {
+            rec::emit(json!({"ev":"fin","h":h,"out":"Err","at":at}));
+            Err("scripted error")?
         }
-    }
-    // 4. blocked writer after crash
-    {
-        let mut sim = turmoil::Builder::new().tick_duration(ms(1)).tcp_capacity(2)
-            .min_message_latency(ms(1)).max_message_latency(ms(1)).build();
-        let log = Rc::new(RefCell::new(Vec::<String>::new()));
-        sim.host("srv", move || async move {
-            let l = turmoil::net::TcpListener::bind("0.0.0.0:80").await?;
-            let (_s, _) = l.accept().await?;
+        "Panic" => {
+            rec::emit(json!({"ev":"panic","h":h,"task":"m"}));
+            panic!("scripted panic");
+        }
+        _ => {
             std::future::pending::<()>().await;
             Ok(())
-        });
-        let l = log.clone();
-        sim.client("cli", async move {
-            let mut s = turmoil::net::TcpStream::connect("srv:80").await?;
-            for i in 0..6 {
-                let r = s.write_all(&[i]).await;
-                l.borrow_mut().push(format!("write {i} -> {:?} at {:?}", r.map_err(|e| e.kind()), turmoil::elapsed()));
-            }
-            let mut b = [0u8; 4];
-            let r = s.read(&mut b).await;
-            l.borrow_mut().push(format!("read -> {:?} at {:?}", r.map_err(|e| e.kind()), turmoil::elapsed()));
-            Ok(())
-        });
-        for i in 0..30 {
-            if i == 8 {
-                sim.crash("srv");
-                println!("crashed; tables {:?}", sim.verif_host_tables("srv"));
-            }
-            let r = sim.step();
-            let lg = log.borrow_mut().drain(..).collect::<Vec<_>>();
-            if !lg.is_empty() || i == 29 {
-                println!("wstep {} -> {:?} log {:?}", i + 1, r.map_err(|e| e.to_string()), lg);
-            }
         }
-        println!("cli tables {:?}", sim.verif_host_tables("cli"));
     }
-    // 5. clocks in a drop guard during crash
-    {
-        struct G(Rc<RefCell<Vec<String>>>);
-        impl Drop for G {
-            fn drop(&mut self) {
-                let r = util::catch(|| format!("{:?} {:?}", turmoil::elapsed(), turmoil::sim_elapsed()));
-                self.0.borrow_mut().push(format!("drop {:?}", r));
+}
+
+struct Cfg {
+    tick: u64,
+    duration: u64,
+    epoch: u64,
+    random_order: bool,
+    seed: u64,
+}
+
+struct Run<'a> {
+    sim: turmoil::Sim<'a>,
+    n: usize,
+    dead: bool,
+}
+
+fn nname(n: usize) -> String {
+    format!("n{n}")
+}
+
+impl<'a> Run<'a> {
+    fn new(cfg: &Cfg) -> Run<'a> {
+        let mut b = turmoil::Builder::new();
+        b.tick_duration(ms(cfg.tick))
+            .simulation_duration(ms(cfg.duration))
+            .epoch(UNIX_EPOCH + ms(cfg.epoch))
+            .rng_seed(cfg.seed);
+        if cfg.random_order {
+            b.enable_random_order();
+        }
+        POLLS.with(|p| *p.borrow_mut() = vec![0]);
+        rec::take();
+        rec::emit(json!({"ev":"reset","tick":cfg.tick,"duration":cfg.duration,"epoch":cfg.epoch,
+            "random":cfg.random_order}));
+        Run { sim: b.build(), n: 0, dead: false }
+    }
+
+    fn look(&self) -> (i64, i64) {
+        (whole_ms(self.sim.elapsed()), whole_ms(self.sim.since_epoch()))
+    }
+
+    fn register(&mut self, sc: &Script) {
+        self.n += 1;
+        let n = self.n;
+        POLLS.with(|p| p.borrow_mut().push(0));
+        let (e, _) = self.look();
+        if sc.kind == "client" {
+            self.sim.client(nname(n), software(n, sc.clone()));
+        } else {
+            let sc2 = sc.clone();
+            self.sim.host(nname(n), move || software(n, sc2.clone()));
+        }
+        rec::emit(json!({"ev":"reg","n":n,"kind":sc.kind,"e":e,"pat":sc.pat,"out":sc.out,
+            "tpat":sc.tpat,"tout":sc.tout}));
+    }
+
+    fn step(&mut self) {
+        let sim = &mut self.sim;
+        let r = util::catch(|| sim.step());
+        let (e, se) = self.look();
+        match r {
+            Ok(Ok(b)) => {
+                rec::emit(json!({"ev":"step_end","res": if b {"true"} else {"false"},"known":true,
+                    "e":e,"se":se,"polls":polls()}));
+            }
+            Ok(Err(_)) => {
+                rec::emit(json!({"ev":"step_end","res":"Err","known":true,"e":e,"se":se,"polls":polls()}));
+            }
+            Err(_) => {
+                self.dead = true;
+                rec::emit(json!({"ev":"step_end","res":"Panic","known":false,"e":0,"se":0,"polls":[]}));
             }
         }
-        let mut sim = turmoil::Builder::new().tick_duration(ms(2)).build();
-        let log = Rc::new(RefCell::new(Vec::<String>::new()));
-        let l = log.clone();
-        sim.host("h", move || {
-            let l = l.clone();
-            async move {
-                let _g = G(l.clone());
-                struct GS(std::sync::Arc<std::sync::Mutex<Vec<String>>>);
-                impl Drop for GS {
-                    fn drop(&mut self) {
-                        let r = util::catch(|| format!("{:?} {:?}", turmoil::elapsed(), turmoil::sim_elapsed()));
-                        println!("send-task drop {:?}", r);
+    }
+
+    fn run(&mut self) {
+        rec::emit(json!({"ev":"run_begin"}));
+        let sim = &mut self.sim;
+        let r = util::catch(|| sim.run());
+        let (e, se) = self.look();
+        match r {
+            Ok(Ok(())) => rec::emit(json!({"ev":"run_end","res":"Ok","e":e,"se":se,"polls":polls()})),
+            Ok(Err(_)) => rec::emit(json!({"ev":"run_end","res":"Err","e":e,"se":se,"polls":polls()})),
+            Err(_) => {
+                self.dead = true;
+                rec::emit(json!({"ev":"run_end","res":"Panic","e":0,"se":0,"polls":[]}));
+            }
+        }
+    }
+
+    fn crash(&mut self, h: usize) {
+        self.sim.crash(nname(h));
+        rec::emit(json!({"ev":"crash","h":h,"polls":polls()}));
+    }
+
+    fn bounce(&mut self, h: usize) {
+        self.sim.bounce(nname(h));
+        rec::emit(json!({"ev":"bounce","h":h,"polls":polls()}));
+    }
+}
+
+/// Turn the raw recorded stream into model-level events.  Purely syntactic:
+/// turmoil's `step N` tracing events become `step`; the first event of a node
+/// inside a step opens its turn (`turn`), the next node's first event / the
+/// end of the step closes it (`turn_end`); inside Sim::run, where the test
+/// thread cannot look, the end of a step is implied by the next `step N`
+/// (result "false") or by the return of run.
+fn postprocess(raw: Vec<Value>) -> Vec<Value> {
+    let mut out: Vec<Value> = Vec::new();
+    let mut in_step = false;
+    let mut cur = 0u64;
+    let mut err_by_cur = false;
+    let mut panicked = false;
+    // close the turn of `cur` unless the step ends through it (Err harvest / panic)
+    fn close_turn(out: &mut Vec<Value>, cur: &mut u64, ends_step: bool) {
+        if *cur != 0 && !ends_step {
+            out.push(json!({"ev":"turn_end","h":*cur}));
+        }
+        *cur = 0;
+    }
+    for e in raw {
+        let ev = e["ev"].as_str().unwrap_or("").to_string();
+        match ev.as_str() {
+            "t" => {
+                let msg = e["message"].as_str().unwrap_or("");
+                if let Some(n) = msg.strip_prefix("step ") {
+                    if in_step {
+                        // inside run: the previous step returned Ok(false)
+                        close_turn(&mut out, &mut cur, false);
+                        out.push(json!({"ev":"step_end","res":"false","known":false,"e":0,"se":0,"polls":[]}));
+                    }
+                    in_step = true;
+                    err_by_cur = false;
+                    panicked = false;
+                    out.push(json!({"ev":"step","n":n.trim().parse::<u64>().unwrap_or(0)}));
+                }
+            }
+            "hb" | "sample" | "fin" | "panic" => {
+                let h = e["h"].as_u64().unwrap();
+                if in_step && h != cur {
+                    close_turn(&mut out, &mut cur, false);
+                    cur = h;
+                    err_by_cur = false;
+                    out.push(json!({"ev":"turn","h":h}));
+                }
+                if ev == "fin" && e["out"] == "Err" {
+                    err_by_cur = true;
+                }
+                if ev == "panic" {
+                    panicked = true;
+                }
+                if ev != "hb" {
+                    out.push(e);
+                }
+            }
+            "step_end" => {
+                let ends = (e["res"] == "Err" && err_by_cur) || (e["res"] == "Panic" && panicked);
+                close_turn(&mut out, &mut cur, ends);
+                in_step = false;
+                out.push(e);
+            }
+            "run_end" => {
+                if in_step {
+                    let res = match e["res"].as_str().unwrap() {
+                        "Ok" => "true",
+                        "Err" => "Err",
+                        _ => "Panic",
+                    };
+                    let ends = (res == "Err" && err_by_cur) || (res == "Panic" && panicked);
+                    close_turn(&mut out, &mut cur, ends);
+                    out.push(json!({"ev":"step_end","res":res,"known":false,"e":0,"se":0,"polls":[]}));
+                    in_step = false;
+                }
+                out.push(e);
+            }
+            _ => out.push(e),
+        }
+    }
+    out
+}
+
+/// Canonical form used to compare the TLC prediction with the recorded run:
+/// per step the order of turns, the samples per (node, task), the completions
+/// and panics, and the result; per call of the test thread its result.  What
+/// the test thread cannot see inside Sim::run (Sim::elapsed and the counters
+/// after each step) is dropped from the prediction.
+fn canon(events: &[Value], keep_turn_order: bool) -> Vec<Value> {
+    let mut out = Vec::new();
+    let mut in_run = false;
+    let mut turns: Vec<u64> = Vec::new();
+    let mut samples: BTreeMap<String, Vec<Value>> = BTreeMap::new();
+    let mut fins: Vec<Value> = Vec::new();
+    let mut panics: Vec<u64> = Vec::new();
+    for e in events {
+        match e["ev"].as_str().unwrap_or("") {
+            "reset" => {}
+            "reg" => out.push(json!({"ev":"reg","n":e["n"],"kind":e["kind"]})),
+            "crash" | "bounce" => out.push(json!({"ev":e["ev"],"h":e["h"]})),
+            "run_begin" => {
+                in_run = true;
+                out.push(json!({"ev":"run_begin"}));
+            }
+            "run_end" => {
+                in_run = false;
+                if e["res"] == "Panic" {
+                    out.push(json!({"ev":"run_end","res":"Panic"}));
+                } else {
+                    out.push(json!({"ev":"run_end","res":e["res"],"e":e["e"],"polls":e["polls"]}));
+                }
+            }
+            "step" => out.push(json!({"ev":"step","n":e["n"]})),
+            "turn" => turns.push(e["h"].as_u64().unwrap()),
+            "turn_end" => {}
+            "sample" => {
+                let key = format!("{}:{}", e["h"], e["task"].as_str().unwrap_or("?"));
+                samples.entry(key).or_default().push(
+                    json!([e["k"], e["st"], e["el"], e["sim"], e["ep"], e["di"]]),
+                );
+            }
+            "fin" => fins.push(json!([e["h"], e["out"], e["at"]])),
+            "panic" => panics.push(e["h"].as_u64().unwrap()),
+            "step_end" => {
+                let mut t = std::mem::take(&mut turns);
+                if !keep_turn_order {
+                    t.sort();
+                }
+                let panicked = e["res"] == "Panic";
+                let mut o = json!({"ev":"step_end","res":e["res"],"turns":t,
+                    "samples": if panicked { json!(null) } else { json!(samples) },
+                    "fins": if panicked { json!(null) } else { json!(fins) },
+                    "panics": std::mem::take(&mut panics)});
+                samples.clear();
+                fins.clear();
+                if !in_run && !panicked {
+                    o["e"] = e["e"].clone();
+                    o["polls"] = e["polls"].clone();
+                }
+                out.push(o);
+            }
+            _ => {}
+        }
+    }
+    out
+}
+
+/// Rewrite a behaviour (list of `last` labels of SimRun) into the event vocabulary.
+fn predicted_events(beh: &[Value]) -> Vec<Value> {
+    beh.iter()
+        .map(|a| {
+            let mut e = a.clone();
+            let name = a["a"].as_str().unwrap();
+            let ev = match name {
+                "register" => "reg",
+                "step_begin" => "step",
+                other => other,
+            };
+            e["ev"] = json!(ev);
+            e
+        })
+        .collect()
+}
+
+struct ReplayOut {
+    divergence: Option<Value>,
+    trace: Vec<Value>,
+    nontrivial: bool,
+}
+
+fn replay_one(beh: &[Value], cfg: &Cfg) -> ReplayOut {
+    let mut run = Run::new(cfg);
+    let mut in_run = false;
+    let mut faults = false;
+    for a in beh {
+        if run.dead {
+            break;
+        }
+        match a["a"].as_str().unwrap() {
+            "register" => run.register(&Script::from_json(a)),
+            "crash" => {
+                faults = true;
+                run.crash(a["h"].as_u64().unwrap() as usize)
+            }
+            "bounce" => {
+                faults = true;
+                run.bounce(a["h"].as_u64().unwrap() as usize)
+            }
+            "run_begin" => {
+                in_run = true;
+                run.run();
+            }
+            "run_end" => in_run = false,
+            "step_begin" if !in_run => run.step(),
+            _ => {}
+        }
+    }
+    let trace = postprocess(rec::take());
+    let want = canon(&predicted_events(beh), true);
+    let got = canon(&trace, true);
+    let mut divergence = None;
+    if want != got {
+        let k = want
+            .iter()
+            .zip(got.iter())
+            .position(|(a, b)| a != b)
+            .unwrap_or(want.len().min(got.len()));
+        divergence = Some(json!({"what":"observation","index":k,
+            "want": want.get(k).cloned().unwrap_or(json!(null)),
+            "got": got.get(k).cloned().unwrap_or(json!(null))}));
+    }
+    // non-trivial: some program observation depends on a controller decision beyond
+    // a single registration (a second node, a crash / bounce, a late registration)
+    let observed = trace.iter().any(|e| e["ev"] == "sample" || e["ev"] == "fin" || e["ev"] == "panic");
+    let nontrivial = observed && (faults || beh.iter().filter(|a| a["a"] == "register").count() > 1);
+    ReplayOut { divergence, trace, nontrivial }
+}
+
+fn cfg_from_args(args: &[String]) -> Cfg {
+    Cfg {
+        tick: util::arg_u64(args, "tick", 2),
+        duration: util::arg_u64(args, "duration", 10),
+        epoch: util::arg_u64(args, "epoch", 1000),
+        random_order: util::arg_u64(args, "random_order", 0) == 1,
+        seed: util::arg_u64(args, "seed", 1),
+    }
+}
+
+fn main_replay(args: &[String]) {
+    let inp = util::arg(args, "in").expect("in=");
+    let out = util::arg(args, "out").expect("out=");
+    let traces = util::arg(args, "traces");
+    let keep = util::arg(args, "keep"); // write the first `keepn` traces concatenated to this file
+    let keepn = util::arg_u64(args, "keepn", 200);
+    let cfg = cfg_from_args(args);
+    let text = std::fs::read_to_string(&inp).expect("read behaviours");
+    let mut total = 0u64;
+    let mut nontrivial = 0u64;
+    let mut ndiv = 0u64;
+    let mut divs: Vec<Value> = Vec::new();
+    let mut samples: Vec<Value> = Vec::new();
+    let mut all: Vec<Value> = Vec::new();
+    rec::with_recorder(|| {
+        for (k, line) in text.lines().enumerate() {
+            if line.trim().is_empty() {
+                continue;
+            }
+            let beh: Vec<Value> = serde_json::from_str(line).expect("behaviour json");
+            let r = match util::catch(|| replay_one(&beh, &cfg)) {
+                Ok(r) => r,
+                Err(p) => ReplayOut {
+                    divergence: Some(json!({"what":"panic","msg":p})),
+                    trace: vec![],
+                    nontrivial: false,
+                },
+            };
+            total += 1;
+            if r.nontrivial {
+                nontrivial += 1;
+            }
+            if samples.len() < 2 && r.nontrivial && r.trace.len() > 12 {
+                samples.push(json!({"behaviour": beh, "trace_excerpt": r.trace.iter().take(14).collect::<Vec<_>>()}));
+            }
+            if keep.is_some() && total <= keepn {
+                all.extend(r.trace.iter().cloned());
+            }
+            if let Some(mut d) = r.divergence {
+                ndiv += 1;
+                if divs.len() < 20 {
+                    d["line"] = json!(k);
+                    d["behaviour"] = json!(beh);
+                    if let Some(dir) = &traces {
+                        let p = format!("{dir}/div-{}.ndjson", divs.len());
+                        util::write_ndjson(&p, &r.trace);
+                        d["trace"] = json!(p);
+                    }
+                    divs.push(d);
+                }
+            }
+        }
+    });
+    if let Some(k) = keep {
+        util::write_ndjson(&k, &all);
+    }
+    let summary = json!({"behaviours": total, "nontrivial": nontrivial, "divergent": ndiv,
+        "divergences": divs, "samples": samples});
+    std::fs::write(&out, serde_json::to_string(&summary).unwrap()).unwrap();
+    println!("replayed={total} nontrivial={nontrivial} divergent={ndiv}");
+}
+
+// ---------------------------------------------------------------------------
+// random scenarios (code -> spec)
+
+fn random_script(rng: &mut SmallRng, kind: &str, mode: &str) -> Script {
+    let npat = rng.random_range(0..=3);
+    let pat: Vec<u64> = (0..npat).map(|_| rng.random_range(0..=9)).collect();
+    let out = if mode == "clock" {
+        // clocks: long-lived software, no failures
+        if kind == "client" && rng.random_bool(0.5) {
+            "Ok"
+        } else {
+            "Never"
+        }
+    } else {
+        match rng.random_range(0..10) {
+            0 => "Err",
+            1 => "Panic",
+            2 | 3 => "Never",
+            _ => "Ok",
+        }
+    };
+    let tout = if mode == "clock" {
+        if rng.random_bool(0.6) {
+            "Never"
+        } else {
+            "none"
+        }
+    } else {
+        match rng.random_range(0..8) {
+            0 => "Panic",
+            1 => "Err",
+            2 => "Ok",
+            _ => "none",
+        }
+    };
+    let tpat: Vec<u64> = if tout == "none" {
+        vec![]
+    } else {
+        (0..rng.random_range(1..=3)).map(|_| rng.random_range(0..=9)).collect()
+    };
+    Script { kind: kind.to_string(), pat, out: out.to_string(), tpat, tout: tout.to_string() }
+}
+
+fn main_random(args: &[String]) {
+    let seed = util::arg_u64(args, "seed", 1);
+    let runs = util::arg_u64(args, "runs", 20);
+    let mode = util::arg(args, "mode").unwrap_or("run".into());
+    let out = util::arg(args, "out").expect("out=");
+    let base = cfg_from_args(args);
+    let mut rng = SmallRng::seed_from_u64(seed ^ 0x73696d72);
+    let mut all: Vec<Value> = Vec::new();
+    let mut ncalls = 0u64;
+    rec::with_recorder(|| {
+        for r in 0..runs {
+            let cfg = Cfg {
+                tick: base.tick,
+                duration: base.duration,
+                epoch: base.epoch,
+                random_order: rng.random_bool(0.5),
+                seed: seed.wrapping_mul(1000).wrapping_add(r),
+            };
+            let mut run = Run::new(&cfg);
+            let mut hosts: Vec<usize> = Vec::new();
+            let ncalls_here = rng.random_range(4..=12);
+            for _ in 0..rng.random_range(1..=3) {
+                let kind = if rng.random_bool(0.5) { "client" } else { "host" };
+                run.register(&random_script(&mut rng, kind, &mode));
+                if kind == "host" {
+                    hosts.push(run.n);
+                }
+            }
+            for _ in 0..ncalls_here {
+                if run.dead {
+                    break;
+                }
+                ncalls += 1;
+                let x = rng.random_range(0..100);
+                if x < 15 && run.n < 5 {
+                    let kind = if rng.random_bool(0.5) { "client" } else { "host" };
+                    run.register(&random_script(&mut rng, kind, &mode));
+                    if kind == "host" {
+                        hosts.push(run.n);
+                    }
+                } else if x < 30 && !hosts.is_empty() {
+                    let h = hosts[rng.random_range(0..hosts.len())];
+                    run.crash(h);
+                } else if x < 45 && !hosts.is_empty() {
+                    let h = hosts[rng.random_range(0..hosts.len())];
+                    run.bounce(h);
+                } else if x < 60 && mode != "clock" {
+                    run.run();
+                } else {
+                    run.step();
+                }
+            }
+            all.extend(postprocess(rec::take()));
+        }
+    });
+    util::write_ndjson(&out, &all);
+    println!("runs={runs} events={} calls={ncalls}", all.len());
+}
+
+// ===========================================================================
+// C04: crash / bounce under protocol workloads (specs/simrun/SimCrash*.tla)
+//
+//   crash replay in=<behaviours.ndjson> out=<summary.json> traces=<dir> tick= lat= cap=
+//       every line is one TLC-generated behaviour of SimCrashGen: per step the
+//       operations each host starts, and crash / bounce calls between steps.
+//       The same behaviour is executed a second time without the crash / bounce
+//       calls (the twin) and the logs of the two uninvolved hosts are compared.
+//   crash random seed= runs= tick= lat= cap= out=<trace.ndjson>
+//
+// Hosts: h1 listens / accepts, h2 connects (the protocol pair of the spec),
+// h3 / h4 talk only to each other (UDP echo + one TCP stream).
+
+mod c04 {
+    use super::*;
+    use std::collections::{BTreeMap, VecDeque};
+    use std::future::Future;
+    use std::net::{IpAddr, Ipv4Addr};
+    use std::rc::Rc;
+    use tokio::io::{AsyncReadExt, AsyncWriteExt};
+    use tokio::sync::Notify;
+    use turmoil::net::tcp::{OwnedReadHalf, OwnedWriteHalf};
+    use turmoil::net::{TcpListener, TcpStream, UdpSocket};
+
+    const TCP_PORT: u16 = 80;
+    const UDP_PORT: u16 = 90;
+    const EPH0: u16 = 49152;
+
+    thread_local! {
+        static SENT: RefCell<Vec<u64>> = const { RefCell::new(Vec::new()) };
+        static GMADE: RefCell<Vec<u64>> = const { RefCell::new(Vec::new()) };
+        static GDROP: RefCell<Vec<u64>> = const { RefCell::new(Vec::new()) };
+        static FACT: RefCell<Vec<u64>> = const { RefCell::new(Vec::new()) };
+        static TWINLOG: RefCell<Vec<String>> = const { RefCell::new(Vec::new()) };
+    }
+
+    fn hname(h: usize) -> String {
+        format!("h{h}")
+    }
+
+    /// drop guard attributed to host h
+    struct Guard(usize);
+    impl Guard {
+        fn new(h: usize) -> Guard {
+            GMADE.with(|g| g.borrow_mut()[h] += 1);
+            Guard(h)
+        }
+    }
+    impl Drop for Guard {
+        fn drop(&mut self) {
+            GDROP.with(|g| g.borrow_mut()[self.0] += 1);
+        }
+    }
+
+    #[derive(Clone, Debug)]
+    pub struct Cmd {
+        pub op: String,
+        pub id: u64,
+        pub c: u64,
+    }
+
+    #[derive(Default)]
+    pub struct Shared {
+        pub cmds: Vec<VecDeque<Cmd>>, // index = host
+    }
+
+    type Cell<T> = Rc<RefCell<Option<T>>>;
+
+    #[derive(Default)]
+    struct Slots {
+        listener: Option<Rc<TcpListener>>,
+        udp: Option<Rc<UdpSocket>>,
+        rd: BTreeMap<u64, Cell<OwnedReadHalf>>,
+        wr: BTreeMap<u64, Cell<OwnedWriteHalf>>,
+    }
+
+    fn store(slots: &Rc<RefCell<Slots>>, c: u64, s: TcpStream) {
+        let (r, w) = s.into_split();
+        let mut sl = slots.borrow_mut();
+        sl.rd.insert(c, Rc::new(RefCell::new(Some(r))));
+        sl.wr.insert(c, Rc::new(RefCell::new(Some(w))));
+    }
+
+    fn res(h: usize, inc: u64, id: u64, r: &str, c: u64) {
+        rec::emit(json!({"ev":"res","h":h,"inc":inc,"id":id,"res":r,"c":c}));
+    }
+
+    fn io_class(e: &std::io::Error) -> &'static str {
+        use std::io::ErrorKind::*;
+        match e.kind() {
+            ConnectionRefused => "refused",
+            ConnectionReset => "closed",
+            AddrInUse => "inuse",
+            _ => "err",
+        }
+    }
+
+    async fn hb(h: usize) {
+        let _g = Guard::new(h);
+        loop {
+            POLLS.with(|p| p.borrow_mut()[h] += 1);
+            rec::emit(json!({"ev":"hb","h":h}));
+            tokio::time::sleep(ms(1)).await;
+        }
+    }
+
+    /// The protocol pair: a command interpreter.
+    async fn puppet(h: usize, inc: u64, lis: usize, shared: Rc<RefCell<Shared>>, notify: Rc<Notify>) -> turmoil::Result {
+        let _g = Guard::new(h);
+        tokio::task::spawn_local(hb(h));
+        let slots: Rc<RefCell<Slots>> = Rc::new(RefCell::new(Slots::default()));
+        let other = hname(3 - h);
+        let mut nbg = 0u64;
+        loop {
+            notify.notified().await;
+            // datagrams handed to the program
+            let udp = slots.borrow().udp.clone();
+            if let Some(u) = &udp {
+                let mut buf = [0u8; 8];
+                while let Ok((n, _from)) = u.try_recv_from(&mut buf) {
+                    let d = if n >= 2 { ((buf[0] as u64) << 8) | buf[1] as u64 } else { 0 };
+                    rec::emit(json!({"ev":"recv","h":h,"inc":inc,"d":d}));
+                }
+            }
+            let cmds: Vec<Cmd> = shared.borrow_mut().cmds[h].drain(..).collect();
+            for cmd in cmds {
+                let (id, c) = (cmd.id, cmd.c);
+                rec::emit(json!({"ev":"cmd_begin","h":h,"inc":inc,"op":cmd.op,"id":id,"c":c}));
+                match cmd.op.as_str() {
+                    "listen" => match TcpListener::bind((IpAddr::V4(Ipv4Addr::UNSPECIFIED), TCP_PORT)).await {
+                        Ok(l) => {
+                            slots.borrow_mut().listener = Some(Rc::new(l));
+                            res(h, inc, id, "ok", 0);
+                        }
+                        Err(e) => res(h, inc, id, io_class(&e), 0),
+                    },
+                    "accept" => {
+                        let l = slots.borrow().listener.clone();
+                        let Some(l) = l else {
+                            res(h, inc, id, "err", 0);
+                            continue;
+                        };
+                        // accept() is polled once here: if a request is already queued the stream
+                        // is returned at once (and may be used in this very turn), else a task waits
+                        let mut fut = Box::pin(async move { l.accept().await });
+                        let first = std::future::poll_fn(|cx| std::task::Poll::Ready(fut.as_mut().poll(cx))).await;
+                        let done = {
+                            let slots = slots.clone();
+                            move |r: std::io::Result<(TcpStream, std::net::SocketAddr)>| match r {
+                                Ok((s, peer)) => {
+                                    // connections are identified by the connector's port: the connector
+                                    // draws its ephemeral ports in connect order
+                                    let c = (peer.port() - EPH0) as u64 + 1;
+                                    store(&slots, c, s);
+                                    res(h, inc, id, "ok", c);
+                                }
+                                Err(e) => res(h, inc, id, io_class(&e), 0),
+                            }
+                        };
+                        match first {
+                            std::task::Poll::Ready(r) => done(r),
+                            std::task::Poll::Pending => {
+                                tokio::task::spawn_local(async move {
+                                    let _g = Guard::new(h);
+                                    done(fut.await);
+                                });
+                            }
+                        }
+                    }
+                    "connect" => {
+                        let slots = slots.clone();
+                        tokio::task::spawn_local(async move {
+                            let _g = Guard::new(h);
+                            match TcpStream::connect((hname(lis), TCP_PORT)).await {
+                                Ok(s) => {
+                                    let port = s.local_addr().map(|a| a.port()).unwrap_or(0);
+                                    let cc = (port.wrapping_sub(EPH0)) as u64 + 1;
+                                    store(&slots, c, s);
+                                    res(h, inc, id, if cc == c { "ok" } else { "ok_port_mismatch" }, c);
+                                }
+                                Err(e) => res(h, inc, id, io_class(&e), c),
+                            }
+                        });
+                    }
+                    "read" => {
+                        let cell = slots.borrow().rd.get(&c).cloned();
+                        tokio::task::spawn_local(async move {
+                            let _g = Guard::new(h);
+                            let Some(cell) = cell else {
+                                res(h, inc, id, "noslot", c);
+                                return;
+                            };
+                            let half = cell.borrow_mut().take();
+                            let Some(mut half) = half else {
+                                res(h, inc, id, "busy", c);
+                                return;
+                            };
+                            let mut b = [0u8; 1];
+                            let r = half.read(&mut b).await;
+                            *cell.borrow_mut() = Some(half);
+                            match r {
+                                Ok(0) => res(h, inc, id, "closed", c),
+                                Ok(_) => res(h, inc, id, "data", c),
+                                Err(e) => res(h, inc, id, io_class(&e), c),
+                            }
+                        });
+                    }
+                    "write" => {
+                        let cell = slots.borrow().wr.get(&c).cloned();
+                        tokio::task::spawn_local(async move {
+                            let _g = Guard::new(h);
+                            let Some(cell) = cell else {
+                                res(h, inc, id, "noslot", c);
+                                return;
+                            };
+                            let half = cell.borrow_mut().take();
+                            let Some(mut half) = half else {
+                                res(h, inc, id, "busy", c);
+                                return;
+                            };
+                            let r = half.write_all(&[id as u8]).await;
+                            *cell.borrow_mut() = Some(half);
+                            match r {
+                                Ok(()) => res(h, inc, id, "ok", c),
+                                Err(_) => res(h, inc, id, "err", c),
+                            }
+                        });
+                    }
+                    "ubind" => match UdpSocket::bind((IpAddr::V4(Ipv4Addr::UNSPECIFIED), UDP_PORT)).await {
+                        Ok(u) => {
+                            let j = u.join_multicast_v4(Ipv4Addr::new(239, 1, 1, 1), Ipv4Addr::UNSPECIFIED);
+                            slots.borrow_mut().udp = Some(Rc::new(u));
+                            res(h, inc, id, if j.is_ok() { "ok" } else { "err" }, 0);
+                        }
+                        Err(e) => res(h, inc, id, io_class(&e), 0),
+                    },
+                    "usend" => {
+                        let u = slots.borrow().udp.clone();
+                        if let Some(u) = u {
+                            let d = c;
+                            SENT.with(|s| s.borrow_mut()[h] += 1);
+                            rec::emit(json!({"ev":"send","h":h,"inc":inc,"d":d,"id":id}));
+                            let _ = u.send_to(&[(d >> 8) as u8, (d & 0xff) as u8], (other.clone(), UDP_PORT)).await;
+                        } else {
+                            res(h, inc, id, "noslot", 0);
+                        }
+                    }
+                    "bg" => {
+                        nbg += 1;
+                        rec::emit(json!({"ev":"bg","h":h,"inc":inc,"id":id}));
+                        if nbg % 2 == 0 {
+                            let g = Guard::new(h);
+                            tokio::spawn(async move {
+                                let _g = g;
+                                std::future::pending::<()>().await;
+                            });
+                        } else {
+                            tokio::task::spawn_local(async move {
+                                let _g = Guard::new(h);
+                                std::future::pending::<()>().await;
+                            });
+                        }
+                    }
+                    _ => {}
+                }
+            }
+        }
+    }
+
+    fn tlog(h: usize, what: String) {
+        let at = whole_ms(turmoil::elapsed());
+        let sim = turmoil::sim_elapsed().map(whole_ms).unwrap_or(-1);
+        TWINLOG.with(|l| l.borrow_mut().push(format!("h{h} @{at}/{sim} {what}")));
+    }
+
+    /// h3: UDP echo + TCP echo server;  h4: the client side.  They never talk to h1 / h2.
+    async fn bystander(h: usize, notify: Rc<Notify>) -> turmoil::Result {
+        let udp = UdpSocket::bind((IpAddr::V4(Ipv4Addr::UNSPECIFIED), UDP_PORT)).await?;
+        let mut buf = [0u8; 8];
+        if h == 3 {
+            let l = TcpListener::bind((IpAddr::V4(Ipv4Addr::UNSPECIFIED), TCP_PORT)).await?;
+            tokio::task::spawn_local(async move {
+                let Ok((mut s, peer)) = l.accept().await else { return };
+                tlog(3, format!("accepted {peer}"));
+                let mut b = [0u8; 1];
+                loop {
+                    match s.read(&mut b).await {
+                        Ok(1) => {
+                            tlog(3, format!("tcp byte {}", b[0]));
+                            if s.write_all(&b).await.is_err() {
+                                tlog(3, "tcp write failed".into());
+                                return;
+                            }
+                        }
+                        other => {
+                            tlog(3, format!("tcp read {other:?}"));
+                            return;
+                        }
                     }
                 }
-                let gs = GS(Default::default());
-                tokio::spawn(async move {
-                    let _g = gs;
-                    std::future::pending::<()>().await;
-                });
-                let l3 = l.clone();
-                tokio::task::spawn_local(async move {
-                    let _g = G(l3);
-                    std::future::pending::<()>().await;
-                });
-                std::future::pending::<()>().await;
-                Ok(())
+            });
+            loop {
+                notify.notified().await;
+                while let Ok((n, from)) = udp.try_recv_from(&mut buf) {
+                    tlog(3, format!("udp {:?} from {from}", &buf[..n]));
+                    let _ = udp.send_to(&buf[..n], from).await;
+                }
+            }
+        } else {
+            let stream: Rc<RefCell<Option<OwnedWriteHalf>>> = Rc::new(RefCell::new(None));
+            let st = stream.clone();
+            tokio::task::spawn_local(async move {
+                match TcpStream::connect((hname(3), TCP_PORT)).await {
+                    Ok(s) => {
+                        tlog(4, format!("connected {:?}", s.local_addr().ok()));
+                        let (mut r, w) = s.into_split();
+                        *st.borrow_mut() = Some(w);
+                        let mut b = [0u8; 1];
+                        loop {
+                            match r.read(&mut b).await {
+                                Ok(1) => tlog(4, format!("tcp echo {}", b[0])),
+                                other => {
+                                    tlog(4, format!("tcp read {other:?}"));
+                                    return;
+                                }
+                            }
+                        }
+                    }
+                    Err(e) => tlog(4, format!("connect failed {:?}", e.kind())),
+                }
+            });
+            let mut k = 0u8;
+            loop {
+                notify.notified().await;
+                while let Ok((n, from)) = udp.try_recv_from(&mut buf) {
+                    tlog(4, format!("udp echo {:?} from {from}", &buf[..n]));
+                }
+                k = k.wrapping_add(1);
+                let _ = udp.send_to(&[k], (hname(3), UDP_PORT)).await;
+                let w = stream.borrow_mut().take();
+                if let Some(mut w) = w {
+                    let r = w.write_all(&[k]).await;
+                    tlog(4, format!("tcp wrote {k} {:?}", r.is_ok()));
+                    *stream.borrow_mut() = Some(w);
+                }
+            }
+        }
+    }
+
+    pub struct CCfg {
+        pub tick: u64,
+        pub lat_steps: u64,
+        pub cap: usize,
+        pub lis: usize,
+    }
+
+    pub struct CRun<'a> {
+        pub sim: turmoil::Sim<'a>,
+        pub shared: Rc<RefCell<Shared>>,
+        notifies: Vec<Rc<Notify>>,
+    }
+
+    fn vec2(v: &[u64]) -> Vec<u64> {
+        vec![v[1], v[2]]
+    }
+    fn polls2() -> Vec<u64> {
+        POLLS.with(|p| vec2(&p.borrow()))
+    }
+    fn sent2() -> Vec<u64> {
+        SENT.with(|p| vec2(&p.borrow()))
+    }
+
+    impl<'a> CRun<'a> {
+        pub fn new(cfg: &CCfg) -> CRun<'a> {
+            let mut b = turmoil::Builder::new();
+            b.tick_duration(ms(cfg.tick))
+                .min_message_latency(ms(cfg.tick * cfg.lat_steps))
+                .max_message_latency(ms(cfg.tick * cfg.lat_steps))
+                .tcp_capacity(cfg.cap)
+                .fail_rate(0.0)
+                .rng_seed(7)
+                .simulation_duration(Duration::from_secs(3600));
+            let mut sim = b.build();
+            for v in [&POLLS, &SENT, &GMADE, &GDROP, &FACT] {
+                v.with(|x| *x.borrow_mut() = vec![0; 5]);
+            }
+            TWINLOG.with(|l| l.borrow_mut().clear());
+            let shared = Rc::new(RefCell::new(Shared { cmds: (0..5).map(|_| VecDeque::new()).collect() }));
+            let mut notifies = vec![Rc::new(Notify::new())];
+            let lis = cfg.lis;
+            for h in 1..=4usize {
+                let nt = Rc::new(Notify::new());
+                notifies.push(nt.clone());
+                let sh = shared.clone();
+                if h <= 2 {
+                    sim.host(hname(h), move || {
+                        let inc = FACT.with(|f| {
+                            f.borrow_mut()[h] += 1;
+                            f.borrow()[h]
+                        });
+                        puppet(h, inc, lis, sh.clone(), nt.clone())
+                    });
+                } else {
+                    sim.host(hname(h), move || bystander(h, nt.clone()));
+                }
+            }
+            rec::take();
+            rec::emit(json!({"ev":"reset","tick":cfg.tick,"lat":cfg.lat_steps,"cap":cfg.cap,"lis":cfg.lis}));
+            CRun { sim, shared, notifies }
+        }
+
+        pub fn step(&mut self, per_host: Vec<Vec<Cmd>>) {
+            for (h, cmds) in per_host.into_iter().enumerate() {
+                if h == 0 || h > 2 {
+                    continue;
+                }
+                self.shared.borrow_mut().cmds[h] = cmds.into();
+            }
+            for h in 1..=4 {
+                self.notifies[h].notify_one();
+            }
+            rec::emit(json!({"ev":"step"}));
+            let sim = &mut self.sim;
+            let r = util::catch(|| sim.step());
+            let ok = match &r {
+                Ok(Ok(_)) => "ok".to_string(),
+                Ok(Err(e)) => format!("err {e}"),
+                Err(p) => format!("panic {p}"),
+            };
+            if ok != "ok" {
+                TWINLOG.with(|l| l.borrow_mut().push(format!("step failed: {ok}")));
+            }
+            rec::emit(json!({"ev":"step_end","polls":polls2(),"sent":sent2(),"ok":ok}));
+        }
+
+        fn tables(&self, h: usize) -> Value {
+            let t = self.sim.verif_host_tables(hname(h));
+            json!({"udp": t.udp_binds.len(), "tcp": t.tcp_binds.len(), "mcast": t.multicast_memberships,
+                   "streams": t.tcp_streams.len()})
+        }
+
+        /// crash the hosts in `hs` with one call (a regex when there are several)
+        pub fn crash(&mut self, hs: &[usize]) {
+            if hs.len() == 1 {
+                self.sim.crash(hname(hs[0]));
+            } else {
+                self.sim.crash(regex::Regex::new("^h[12]$").unwrap());
+            }
+            for &h in hs {
+                let glive = GMADE.with(|g| g.borrow()[h]) - GDROP.with(|g| g.borrow()[h]);
+                let mut obs = self.tables(h);
+                obs["polls"] = json!(polls2());
+                obs["sent"] = json!(sent2());
+                obs["glive"] = json!(glive);
+                obs["running"] = json!(self.sim.is_host_running(hname(h)));
+                rec::emit(json!({"ev":"crash","h":h,"obs":obs}));
+            }
+        }
+
+        pub fn bounce(&mut self, hs: &[usize]) {
+            let before: Vec<u64> = FACT.with(|f| f.borrow().clone());
+            if hs.len() == 1 {
+                self.sim.bounce(hname(hs[0]));
+            } else {
+                self.sim.bounce(regex::Regex::new("^h[12]$").unwrap());
+            }
+            for &h in hs {
+                let fact = FACT.with(|f| f.borrow()[h]) - before[h];
+                let obs = json!({"polls": polls2(), "sent": sent2(), "fact": fact,
+                    "running": self.sim.is_host_running(hname(h))});
+                rec::emit(json!({"ev":"bounce","h":h,"obs":obs,"streams":self.tables(h)["streams"]}));
+            }
+        }
+
+        pub fn twin_log(&self) -> Vec<String> {
+            TWINLOG.with(|l| l.borrow().clone())
+        }
+    }
+
+    /// Raw stream -> model-level events.  Purely syntactic: within a step the events of a
+    /// host form its turn; operations that were started in an earlier step and return now
+    /// are listed in the `turn` event (they are the tasks woken by the deliveries at the
+    /// start of the turn), operations started now carry their immediate result in `cmd`.
+    pub fn postprocess(raw: Vec<Value>) -> Vec<Value> {
+        let mut out: Vec<Value> = Vec::new();
+        let mut i = 0;
+        let mut started: BTreeMap<u64, u64> = BTreeMap::new(); // op id -> step index it was started in
+        let mut kinds: BTreeMap<u64, String> = BTreeMap::new(); // op id -> operation
+        let mut stepno = 0u64;
+        while i < raw.len() {
+            let e = &raw[i];
+            let ev = e["ev"].as_str().unwrap_or("");
+            if ev != "step" {
+                if ev != "t" && ev != "hb" {
+                    out.push(e.clone());
+                }
+                i += 1;
+                continue;
+            }
+            stepno += 1;
+            out.push(json!({"ev":"step"}));
+            // collect the events of this step
+            let mut j = i + 1;
+            let mut order: Vec<u64> = Vec::new();
+            let mut per: BTreeMap<u64, Vec<Value>> = BTreeMap::new();
+            while j < raw.len() && raw[j]["ev"] != "step_end" {
+                let x = &raw[j];
+                let xe = x["ev"].as_str().unwrap_or("");
+                if matches!(xe, "hb" | "recv" | "cmd_begin" | "res" | "send" | "bg") {
+                    let h = x["h"].as_u64().unwrap();
+                    if h <= 2 {
+                        if !order.contains(&h) {
+                            order.push(h);
+                        }
+                        per.entry(h).or_default().push(x.clone());
+                    }
+                }
+                j += 1;
+            }
+            for h in order {
+                let evs = per.remove(&h).unwrap_or_default();
+                let mut got: Vec<u64> = Vec::new();
+                let mut woken: Vec<(u64, String, u64)> = Vec::new();
+                let mut cmds: Vec<Value> = Vec::new();
+                let mut inc = 0u64;
+                for x in &evs {
+                    match x["ev"].as_str().unwrap() {
+                        "recv" => {
+                            got.push(x["d"].as_u64().unwrap());
+                            inc = x["inc"].as_u64().unwrap();
+                        }
+                        "cmd_begin" => {
+                            let id = x["id"].as_u64().unwrap();
+                            started.insert(id, stepno);
+                            kinds.insert(id, x["op"].as_str().unwrap().to_string());
+                            inc = x["inc"].as_u64().unwrap();
+                            cmds.push(json!({"ev":"cmd","h":h,"inc":x["inc"],"op":x["op"],"id":id,
+                                "c":x["c"],"res":""}));
+                        }
+                        "res" => {
+                            let id = x["id"].as_u64().unwrap();
+                            inc = x["inc"].as_u64().unwrap();
+                            let r = x["res"].as_str().unwrap().to_string();
+                            if started.get(&id) == Some(&stepno) {
+                                for c in cmds.iter_mut() {
+                                    if c["id"] == id {
+                                        c["res"] = json!(r);
+                                        if c["op"] == "accept" {
+                                            c["c"] = x["c"].clone();
+                                        }
+                                    }
+                                }
+                            } else {
+                                woken.push((id, r, x["c"].as_u64().unwrap_or(0)));
+                            }
+                        }
+                        "send" => {
+                            for c in cmds.iter_mut() {
+                                if c["id"] == x["id"] {
+                                    c["res"] = json!("ok");
+                                }
+                            }
+                        }
+                        "bg" => {
+                            for c in cmds.iter_mut() {
+                                if c["id"] == x["id"] {
+                                    c["res"] = json!("ok");
+                                }
+                            }
+                        }
+                        _ => {}
+                    }
+                }
+                woken.sort();
+                got.sort();
+                let resv: Vec<Value> = woken.iter().map(|(id, r, _)| json!([id, r])).collect();
+                let acc: Vec<Value> = woken
+                    .iter()
+                    .filter(|(id, r, c)| r == "ok" && *c != 0 && kinds.get(id).map(|k| k == "accept").unwrap_or(false))
+                    .map(|(id, _, c)| json!([id, c]))
+                    .collect();
+                out.push(json!({"ev":"turn","h":h,"inc":inc,"got":got,"res":resv,"acc":acc}));
+                out.extend(cmds);
+                out.push(json!({"ev":"turn_end","h":h}));
+            }
+            if j < raw.len() {
+                out.push(raw[j].clone());
+            }
+            i = j + 1;
+        }
+        out
+    }
+
+    /// canonical form for the comparison with the TLC prediction
+    pub fn canon(events: &[Value]) -> Vec<Value> {
+        let cl = |r: &Value| -> Value {
+            // end-of-file and reset are one class ("closed") already; nothing else to fold
+            r.clone()
+        };
+        events
+            .iter()
+            .filter_map(|e| match e["ev"].as_str().unwrap_or("") {
+                "step" => Some(json!({"ev":"step"})),
+                "turn" => {
+                    let mut res: Vec<Value> = e["res"].as_array().cloned().unwrap_or_default();
+                    res.sort_by_key(|r| r[0].as_u64().unwrap_or(0));
+                    let mut got: Vec<u64> = e["got"].as_array().map(|a| a.iter().map(|x| x.as_u64().unwrap()).collect()).unwrap_or_default();
+                    got.sort();
+                    Some(json!({"ev":"turn","h":e["h"],"got":got,"res":res.iter().map(cl).collect::<Vec<_>>()}))
+                }
+                "cmd" => Some(json!({"ev":"cmd","h":e["h"],"op":e["op"],"id":e["id"],"res":e["res"],
+                    "c": if e["op"] == "accept" || e["op"] == "usend" || e["op"] == "bg" || e["op"] == "listen" || e["op"] == "ubind" { json!(0) } else { e["c"].clone() }})),
+                "step_end" => Some(json!({"ev":"step_end","polls":e["polls"],"sent":e["sent"]})),
+                "crash" => Some(json!({"ev":"crash","h":e["h"],"obs":e["obs"]})),
+                "bounce" => Some(json!({"ev":"bounce","h":e["h"],"obs":e["obs"]})),
+                _ => None,
+            })
+            .collect()
+    }
+
+    pub fn predicted(beh: &[Value]) -> Vec<Value> {
+        beh.iter()
+            .map(|a| {
+                let mut e = a.clone();
+                let name = a["a"].as_str().unwrap();
+                e["ev"] = json!(if name == "step_begin" { "step" } else { name });
+                e
+            })
+            .collect()
+    }
+
+    /// Execute one behaviour; with_faults = false gives the twin.
+    pub fn execute(beh: &[Value], cfg: &CCfg, with_faults: bool) -> (Vec<Value>, Vec<String>, bool) {
+        let mut run = CRun::new(cfg);
+        let mut i = 0;
+        let mut faults = false;
+        while i < beh.len() {
+            let a = &beh[i];
+            match a["a"].as_str().unwrap() {
+                "crash" | "bounce" => {
+                    faults = true;
+                    let kind = a["a"].as_str().unwrap().to_string();
+                    let mut hs = vec![a["h"].as_u64().unwrap() as usize];
+                    // two adjacent calls of the same kind on hosts 1 and 2 = one call with a regex
+                    if i + 1 < beh.len() && beh[i + 1]["a"] == kind.as_str() && hs[0] == 1 && beh[i + 1]["h"] == 2 {
+                        hs.push(2);
+                        i += 1;
+                    }
+                    if with_faults {
+                        if kind == "crash" {
+                            run.crash(&hs)
+                        } else {
+                            run.bounce(&hs)
+                        }
+                    }
+                    i += 1;
+                }
+                "step_begin" => {
+                    let mut per: Vec<Vec<Cmd>> = vec![Vec::new(); 5];
+                    let mut j = i + 1;
+                    while j < beh.len() && beh[j]["a"] != "step_end" {
+                        let b = &beh[j];
+                        if b["a"] == "cmd" {
+                            per[b["h"].as_u64().unwrap() as usize].push(Cmd {
+                                op: b["op"].as_str().unwrap().to_string(),
+                                id: b["id"].as_u64().unwrap(),
+                                c: b["c"].as_u64().unwrap(),
+                            });
+                        }
+                        j += 1;
+                    }
+                    run.step(per);
+                    i = j + 1;
+                }
+                _ => i += 1,
+            }
+        }
+        let log = run.twin_log();
+        (rec::take(), log, faults)
+    }
+
+    pub fn replay_one(beh: &[Value], cfg: &CCfg) -> ReplayOut {
+        let (raw, log, faults) = execute(beh, cfg, true);
+        let mut trace = postprocess(raw);
+        let (_, twin, _) = execute(beh, cfg, false);
+        rec::take();
+        let equal = log == twin;
+        let mut tw = json!({"ev":"twin","equal":equal});
+        if !equal {
+            let k = log.iter().zip(twin.iter()).position(|(a, b)| a != b).unwrap_or(log.len().min(twin.len()));
+            tw["first_diff"] = json!({"index":k,"run":log.get(k).cloned().unwrap_or_default(),
+                "twin":twin.get(k).cloned().unwrap_or_default()});
+        }
+        trace.push(tw);
+        let want = canon(&predicted(beh));
+        let got = canon(&trace);
+        let mut divergence = None;
+        if want != got {
+            let k = want.iter().zip(got.iter()).position(|(a, b)| a != b).unwrap_or(want.len().min(got.len()));
+            divergence = Some(json!({"what":"observation","index":k,
+                "want": want.get(k).cloned().unwrap_or(json!(null)),
+                "got": got.get(k).cloned().unwrap_or(json!(null))}));
+        } else if !equal {
+            divergence = Some(json!({"what":"twin","detail":trace.last()}));
+        }
+        let observed = trace.iter().any(|e| {
+            e["ev"] == "turn"
+                && (e["res"].as_array().map(|a| !a.is_empty()).unwrap_or(false)
+                    || e["got"].as_array().map(|a| !a.is_empty()).unwrap_or(false))
+        });
+        ReplayOut { divergence, trace, nontrivial: faults && observed }
+    }
+
+    fn ccfg(args: &[String]) -> CCfg {
+        CCfg {
+            tick: util::arg_u64(args, "tick", 2),
+            lat_steps: util::arg_u64(args, "lat", 1),
+            cap: util::arg_u64(args, "cap", 1) as usize,
+            lis: util::arg_u64(args, "lis", 1) as usize,
+        }
+    }
+
+    pub fn main_replay(args: &[String]) {
+        let inp = util::arg(args, "in").expect("in=");
+        let out = util::arg(args, "out").expect("out=");
+        let traces = util::arg(args, "traces");
+        let keep = util::arg(args, "keep");
+        let keepn = util::arg_u64(args, "keepn", 200);
+        let cfg = ccfg(args);
+        let text = std::fs::read_to_string(&inp).expect("read behaviours");
+        let mut total = 0u64;
+        let mut nontrivial = 0u64;
+        let mut ndiv = 0u64;
+        let mut divs: Vec<Value> = Vec::new();
+        let mut samples: Vec<Value> = Vec::new();
+        let mut all: Vec<Value> = Vec::new();
+        rec::with_recorder(|| {
+            for (k, line) in text.lines().enumerate() {
+                if line.trim().is_empty() {
+                    continue;
+                }
+                let beh: Vec<Value> = serde_json::from_str(line).expect("behaviour json");
+                let r = match util::catch(|| replay_one(&beh, &cfg)) {
+                    Ok(r) => r,
+                    Err(p) => ReplayOut {
+                        divergence: Some(json!({"what":"panic","msg":p})),
+                        trace: vec![],
+                        nontrivial: false,
+                    },
+                };
+                total += 1;
+                if r.nontrivial {
+                    nontrivial += 1;
+                }
+                if samples.len() < 2 && r.nontrivial && r.trace.len() > 12 {
+                    samples.push(json!({"behaviour": beh, "trace_excerpt": r.trace.iter().take(14).collect::<Vec<_>>()}));
+                }
+                if keep.is_some() && total <= keepn {
+                    all.extend(r.trace.iter().cloned());
+                }
+                if let Some(mut d) = r.divergence {
+                    ndiv += 1;
+                    if divs.len() < 20 {
+                        d["line"] = json!(k);
+                        d["behaviour"] = json!(beh);
+                        if let Some(dir) = &traces {
+                            let p = format!("{dir}/div-{}.ndjson", divs.len());
+                            util::write_ndjson(&p, &r.trace);
+                            d["trace"] = json!(p);
+                        }
+                        divs.push(d);
+                    }
+                }
             }
         });
-        sim.step().unwrap();
-        sim.step().unwrap();
-        sim.crash("h");
-        println!("drop log {:?}", log.borrow());
+        if let Some(k) = keep {
+            util::write_ndjson(&k, &all);
+        }
+        let summary = json!({"behaviours": total, "nontrivial": nontrivial, "divergent": ndiv,
+            "divergences": divs, "samples": samples});
+        std::fs::write(&out, serde_json::to_string(&summary).unwrap()).unwrap();
+        println!("replayed={total} nontrivial={nontrivial} divergent={ndiv}");
+    }
+
+    pub fn main(args: &[String]) {
+        match args.first().map(|s| s.as_str()) {
+            Some("replay") => main_replay(&args[1..]),
+            Some("random") => main_random(&args[1..]),
+            _ => {
+                eprintln!("usage: simrun crash replay|random key=value...");
+                std::process::exit(2);
+            }
+        }
+    }
+
+    /// Seeded random workloads with sampled crash points (long runs, both hosts may be
+    /// crashed, regex selection).  The driver watches the results as they come in and only
+    /// starts operations that make sense (a read on a stream the host holds since an
+    /// earlier step, one accept at a time, ...), i.e. it stays inside the alphabet of the spec.
+    pub fn main_random(args: &[String]) {
+        let seed = util::arg_u64(args, "seed", 1);
+        let runs = util::arg_u64(args, "runs", 20);
+        let steps = util::arg_u64(args, "steps", 14);
+        let out = util::arg(args, "out").expect("out=");
+        let cfg = ccfg(args);
+        let mut rng = SmallRng::seed_from_u64(seed ^ 0x63726173);
+        let mut all: Vec<Value> = Vec::new();
+        let mut nfault = 0u64;
+        let mut nops = 0u64;
+        #[derive(Default, Clone)]
+        struct Mirror {
+            up: bool,
+            listening: bool,      // listen returned ok in an earlier step
+            udp: bool,            // ubind returned ok
+            held: Vec<u64>,       // connections usable from the next step on
+            fresh: Vec<u64>,      // handed over in this step
+            pend: Vec<(String, u64, u64)>, // (kind, id, c) started, not returned
+        }
+        rec::with_recorder(|| {
+            for _ in 0..runs {
+                let mut run = CRun::new(&cfg);
+                let mut raw: Vec<Value> = rec::take();
+                let mut script: Vec<Value> = Vec::new();
+                let mut id = 0u64;
+                let mut nconn = 0u64;
+                let mut ndg = 0u64;
+                let mut m: Vec<Mirror> = vec![Mirror::default(); 3];
+                m[1].up = true;
+                m[2].up = true;
+                for _s in 0..steps {
+                    if rng.random_bool(0.22) {
+                        let both = rng.random_bool(0.2);
+                        let kind = if rng.random_bool(0.5) { "crash" } else { "bounce" };
+                        let hs: Vec<usize> = if both { vec![1, 2] } else { vec![rng.random_range(1..=2)] };
+                        for &h in &hs {
+                            script.push(json!({"a":kind,"h":h}));
+                            m[h] = Mirror { up: kind == "bounce", ..Default::default() };
+                        }
+                        if kind == "crash" {
+                            run.crash(&hs)
+                        } else {
+                            run.bounce(&hs)
+                        }
+                        nfault += 1;
+                    }
+                    script.push(json!({"a":"step_begin"}));
+                    let mut per: Vec<Vec<Cmd>> = vec![Vec::new(); 5];
+                    for h in 1..=2usize {
+                        if !m[h].up {
+                            continue;
+                        }
+                        for _ in 0..rng.random_range(0..=2) {
+                            let x = rng.random_range(0..100);
+                            let busy = |k: &str, c: u64| m[h].pend.iter().any(|p| p.0 == k && (c == 0 || p.2 == c));
+                            let pick = if m[h].held.is_empty() { 0 } else { m[h].held[rng.random_range(0..m[h].held.len())] };
+                            let choice: Option<(&str, u64)> = if h == cfg.lis && !m[h].listening && !busy("listen", 0) && x < 50 {
+                                Some(("listen", 0))
+                            } else if h == cfg.lis && m[h].listening && !busy("accept", 0) && x < 35 {
+                                Some(("accept", 0))
+                            } else if h != cfg.lis && x < 30 && nconn < 6 {
+                                nconn += 1;
+                                Some(("connect", nconn))
+                            } else if x < 50 && pick != 0 && !busy("read", pick) {
+                                Some(("read", pick))
+                            } else if x < 70 && pick != 0 && !busy("write", pick) {
+                                Some(("write", pick))
+                            } else if x < 80 && !m[h].udp && !busy("ubind", 0) {
+                                Some(("ubind", 0))
+                            } else if x < 92 && m[h].udp {
+                                ndg += 1;
+                                Some(("usend", ndg))
+                            } else if x >= 92 {
+                                Some(("bg", 0))
+                            } else {
+                                None
+                            };
+                            if let Some((op, c)) = choice {
+                                id += 1;
+                                nops += 1;
+                                script.push(json!({"a":"cmd","h":h,"op":op,"id":id,"c":c}));
+                                per[h].push(Cmd { op: op.to_string(), id, c });
+                                m[h].pend.push((op.to_string(), id, c));
+                            }
+                        }
+                    }
+                    script.push(json!({"a":"step_end"}));
+                    run.step(per);
+                    let new = rec::take();
+                    for h in 1..=2usize {
+                        let fresh = std::mem::take(&mut m[h].fresh);
+                        m[h].held.extend(fresh);
+                    }
+                    for e in &new {
+                        if e["ev"] == "res" {
+                            let h = e["h"].as_u64().unwrap() as usize;
+                            let rid = e["id"].as_u64().unwrap();
+                            let r = e["res"].as_str().unwrap();
+                            if let Some(k) = m[h].pend.iter().position(|p| p.1 == rid) {
+                                let (kind, _, _) = m[h].pend.remove(k);
+                                match (kind.as_str(), r) {
+                                    ("listen", "ok") => m[h].listening = true,
+                                    ("ubind", "ok") => m[h].udp = true,
+                                    ("connect", "ok") | ("accept", "ok") => m[h].fresh.push(e["c"].as_u64().unwrap()),
+                                    _ => {}
+                                }
+                            }
+                        }
+                    }
+                    // send / bg return at once
+                    for h in 1..=2usize {
+                        m[h].pend.retain(|p| p.0 != "usend" && p.0 != "bg");
+                    }
+                    // a listener / socket bound in this step is usable from the next one:
+                    // `listening` / `udp` were set above, after the commands of this step
+                    raw.extend(new);
+                }
+                let log = run.twin_log();
+                drop(run);
+                let mut trace = postprocess(raw);
+                let (_, twin, _) = execute(&script, &cfg, false);
+                rec::take();
+                let equal = log == twin;
+                let mut tw = json!({"ev":"twin","equal":equal});
+                if !equal {
+                    let k = log.iter().zip(twin.iter()).position(|(a, b)| a != b).unwrap_or(log.len().min(twin.len()));
+                    tw["first_diff"] = json!({"index":k,"run":log.get(k).cloned().unwrap_or_default(),
+                        "twin":twin.get(k).cloned().unwrap_or_default()});
+                }
+                trace.push(tw);
+                all.extend(trace);
+            }
+        });
+        util::write_ndjson(&out, &all);
+        println!("runs={runs} events={} faults={nfault} ops={nops}", all.len());
     }
 }
 
 fn main() {
     let args: Vec<String> = std::env::args().skip(1).collect();
     match args.first().map(|s| s.as_str()) {
-        Some("probe") => probe(),
+        Some("replay") => main_replay(&args[1..]),
+        Some("random") => main_random(&args[1..]),
+        Some("crash") => c04::main(&args[1..]),
         _ => {
-            eprintln!("usage: simrun probe|replay|random|crash key=value...");
+            eprintln!("usage: simrun replay|random|crash key=value...");
             std::process::exit(2);
         }
     }
